@@ -197,11 +197,37 @@ set_grammar(void)
     return decoder_set_align_text(D, ALIGN_TEXT);
 }
 
+/* --fresh 1: every plan runs on a newly created decoder.  Buffers that grow during an utterance stay grown for the
+ * life of a decoder, so only a fresh one meets their initial sizes. */
+static int FRESH, COMPALLSEN;
+static decoder_t *
+new_decoder(void)
+{
+    config_t *cfg = config_init(NULL);
+    decoder_t *d;
+    config_set_str(cfg, "hmm", MODELDIR);
+    config_set_str(cfg, "dict", DICT_PATH);
+    config_set_str(cfg, "loglevel", "FATAL");
+    if (COMPALLSEN)
+        config_set_bool(cfg, "compallsen", 1);
+    d = decoder_init(cfg);
+    return d;
+}
+
 static int
 run_plan(const plan_t *p, digest_t *g, const char *cd)
 {
     int i, acc = 0, rc, before;
     size_t start = 0;
+    if (FRESH) {
+        if (D)
+            decoder_free(D);
+        D = new_decoder();
+        if (!D || set_grammar() < 0) {
+            mc_viol("harness/decoder-init-failed", cd, "could not create a decoder");
+            return -1;
+        }
+    }
     if (decoder_set_cmn(D, CMN_FIXED) < 0 || decoder_start_utt(D) < 0) {
         mc_viol("C07/start-failed", cd, "could not start the utterance");
         return -1;
@@ -441,7 +467,6 @@ main(int argc, char **argv)
     static const size_t LEN[4] = { 4800, 11200, 22400, 0 };
     const char *cas = mc_arg(argc, argv, "--case", NULL);
     int audio = atoi(mc_arg(argc, argv, "--audio", "0")), dev = atoi(mc_arg(argc, argv, "--dev", "2")), shard = 0, nshard = 1, complete;
-    config_t *cfg;
     FILE *fp;
     size_t i;
     char cd[256];
@@ -476,14 +501,9 @@ main(int argc, char **argv)
         fputs(DICT_TEXT, fp);
         fclose(fp);
     }
-    cfg = config_init(NULL);
-    config_set_str(cfg, "hmm", MODELDIR);
-    config_set_str(cfg, "dict", DICT_PATH);
-    config_set_str(cfg, "loglevel", "FATAL");
-    if (atoi(mc_arg(argc, argv, "--compallsen", "0")))
-        config_set_bool(cfg, "compallsen", 1);
-    D = decoder_init(cfg);
-    unlink(DICT_PATH);
+    COMPALLSEN = atoi(mc_arg(argc, argv, "--compallsen", "0"));
+    FRESH = atoi(mc_arg(argc, argv, "--fresh", "0"));
+    D = new_decoder();
     if (!D || set_grammar() < 0)
         return 2;
     /* reference: one streaming call */
@@ -512,6 +532,7 @@ main(int argc, char **argv)
         mc_set_current(cas);
         if (run_plan(&p, &g, cas) == 0 && !P_C03)
             compare(&g, cas);
+        unlink(DICT_PATH);
         mc_finish();
         return 0;
     }
@@ -570,6 +591,7 @@ main(int argc, char **argv)
         mc_sample("%s", d1);
     }
     complete = mc_fork_loop(shard, NPLANS, nshard, 64, 300, run_index, NULL);
+    unlink(DICT_PATH);
     mc_stat("evaluations", mc_sh ? mc_sh->evals : 0);
     mc_stat("nontrivial", mc_sh ? mc_sh->nontriv : 0);
     mc_stat("reference_frames", REF.nfeat);
